@@ -314,11 +314,36 @@ Inductive item :=
 | IDAHeight (bl : list blob)       (* a whole DA height: every blob the DA layer holds there, in id order, read by one
                                       processNextDAHeaderAndData call through RetrieveWithHelpers *)
 | IGossipH (sh : sheader)          (* header gossip / header served by a peer *)
-| IGossipD (d : data) (linked : bool).
+| IGossipD (d : data) (linked : bool)
+| IStoreRange (l : list sheader).  (* the header store advanced by SEVERAL headers (oldest first) between two passes of
+                                      HeaderStoreRetrieveLoop (catch-up, range sync, start-up backlog, a slow tick): one pass
+                                      reads the whole range.  The headers are whatever the store holds — block.Manager does
+                                      not rely on how they got there (go-header's own checks are [hstore_accepts]) *)
 
 (* HeaderStoreRetrieveLoop's body for one new header (block/store.go:46-54) *)
 Definition forward_header (g : genesis) (tb : exec_tbl) (s : nstate) (sh : sheader) : nstate :=
   if is_expected_sequencer g sh then sync_header tb s sh else s.
+
+(* HeaderStoreRetrieveLoop, one pass over a range (block/store.go:24-58): getHeadersFromHeaderStore(last+1, height), then
+   EVERY header of the range goes through the test of :47 on its own, in height order *)
+Definition forward_range (g : genesis) (tb : exec_tbl) (s : nstate) (l : list sheader) : nstate :=
+  fold_left (forward_header g tb) l s.
+(* the headers of a range that reach the sync loop *)
+Definition forwarded (g : genesis) (l : list sheader) : list sheader := filter (is_expected_sequencer g) l.
+(* a go-header store only grows by the next height (store/heightsub.go Pub): the range continues the store *)
+Fixpoint consecutive (h : N) (l : list sheader) : bool :=
+  match l with
+  | [] => true
+  | x :: r => (h_height (sh_hdr x) =? h)%N && consecutive (h + 1) r
+  end.
+Definition range_ok (st l : list sheader) : bool :=
+  match st, l with
+  | t :: _, _ :: _ => consecutive (h_height (sh_hdr t) + 1) l
+  | _, _ => false
+  end.
+(* what can be seen of a pass from outside: how many headers of the range the sync loop took (headerCache.IsSeen) *)
+Definition newly_seen (before after : list header) (l : list sheader) : N :=
+  N.of_nat (length (filter (fun x => mem_header (sh_hdr x) after && negb (mem_header (sh_hdr x) before)) l)).
 
 (* the body of processNextDAHeaderAndData's loop for one blob (block/retriever.go:83-92), followed by the
    syncer's handling of the events it sent.  Outcome code: 0 nothing, 1 handled-and-skipped (DA header),
@@ -358,7 +383,8 @@ Definition marked_count (s s1 : nstate) (bl : list blob) : N :=
 
 (* one traffic item, followed by the ticks of the store loops.  Outcome code (what the harness observes):
    0 nothing, 1 handled-and-skipped (DA header), 2 admitted, 3 panic; for a whole DA height: 10 + the number
-   of its blobs whose hash got a DA-included mark from this read *)
+   of its blobs whose hash got a DA-included mark from this read; for a range of the header store: 20 + the number
+   of its headers the sync loop took *)
 Definition node_step (g : genesis) (now : Z) (tb : exec_tbl) (s : nstate) (i : item) : nstate * N :=
   if n_crashed s then (s, 0%N)
   else
@@ -383,6 +409,12 @@ Definition node_step (g : genesis) (now : Z) (tb : exec_tbl) (s : nstate) (i : i
   | IGossipD u linked =>
       if dstore_accepts now (n_dstore s) u linked
       then (sync_data tb (set_ingress s (n_hda s) (n_dda s) (n_hstore s) (u :: n_dstore s) false) u, 2%N)
+      else (s, 0%N)
+  | IStoreRange l =>
+      if range_ok (n_hstore s) l
+      then let s1 := set_ingress s (n_hda s) (n_dda s) (rev l ++ n_hstore s) (n_dstore s) false in
+           let s2 := forward_range g tb s1 l in
+           (s2, (20 + newly_seen (n_hseen s) (n_hseen s2) l)%N)
       else (s, 0%N)
   end.
 
@@ -442,6 +474,7 @@ Definition adversarial (pk : key) (i : item) : bool :=
   | IDAHeight bl => forallb (blob_adversarial pk) bl      (* a DA height holding third-party material only *)
   | IGossipH u => negb (signed_by pk u)
   | IGossipD _ _ => true
+  | IStoreRange l => negb (forallb (signed_by pk) l)
   end.
 
 (* adversarial traffic on the DA layer: any blobs whatsoever that are not signed by the proposer *)
@@ -456,11 +489,17 @@ Definition harmless (pk : key) (i : item) : bool :=
   | IDA _ | IDAHeight _ => adversarial pk i
   | IGossipH u => negb (names_proposer pk (h_proposer (sh_hdr u)))
   | IGossipD _ linked => negb linked
+  | IStoreRange _ => false
   end.
 
-(* genuine traffic initialises the header store with a header naming the proposer *)
+(* genuine traffic initialises the header store with a header naming the proposer, and a range that honest peers
+   serve holds headers naming the proposer *)
 Definition init_ok (pk : key) (i : item) : bool :=
-  match i with IInitH sh => names_proposer pk (h_proposer (sh_hdr sh)) | _ => true end.
+  match i with
+  | IInitH sh => names_proposer pk (h_proposer (sh_hdr sh))
+  | IStoreRange l => forallb (fun x => names_proposer pk (h_proposer (sh_hdr x))) l
+  | _ => true
+  end.
 
 Definition hstore_inv (pk : key) (s : nstate) : Prop :=
   match n_hstore s with [] => True | t :: _ => names_proposer pk (h_proposer (sh_hdr t)) = true end.
